@@ -56,6 +56,11 @@ CHECKS = {
    technique="TLA+ specs Account.tla and Sync.tla behaviours (TLC) replayed on LocalAccount / syncing devices; after every step the live search index is compared with the folders, with a recount and with an index rebuilt from scratch",
    text="For every behaviour of Account.tla in the transition tour (secret edits, moves, archive/unarchive, folder creation/removal, reload; both backends) and for simulated Sync.tla behaviours (merges, auto-merges from another device), after every step the search index must contain exactly one document per live secret with its current label/tags/kind/favourite, its per-folder/kind/tag/favourite counters must equal a recount over its documents, and documents and counters must equal those of a fresh index filled with add_folder; find_by_id must find every live secret.",
    note="The app-level call initialize_search_index() is made after every sign-in as the real clients do (it sets the archive folder id used by the kind counters); query_map text queries not yet exercised."),
+ "C09": dict(
+   level="model_checking", design="DESIGN.md 6.6, 7 (C09), appendix A.3",
+   technique="TLA+ spec Sync.tla in concurrent mode model-checked exhaustively with TLC (all interleavings at request granularity); simulated interleavings replayed on real devices through gated SyncClients against a real server Backend",
+   text="TLC explores every interleaving of the request-level steps (status, sync, scan, diff, patch, force-merge requests and the local critical sections between them) of two devices' concurrent sync calls over all histories of up to 2 edits per device, and checks ServerMonotone (the server log only changes by whole accepted patches), NoAcceptedDropped, NoLoss/NoDup and that sequential rounds after the concurrent phase converge. Interleavings of the code-faithful model are replayed on real LocalAccount devices: every request of the real AutoMerge code is parked at a gate and released in the order the behaviour dictates; a request kind the behaviour does not have next, a call that does not return, a server log or parked-device log different from the spec, or an accepted event missing from the real server log is a divergence; failures attributable to a listed deviation are reported as KNOWN-FINDING.",
+   note="The server side of each request is atomic (account write lock) as in the axum handlers, mirrored by the in-process client; 2 devices; real OS-thread concurrency against the HTTP server (hook H3 recording) is not built."),
 }
 
 NOT_YET = {
